@@ -164,7 +164,14 @@ func runCheck(args []string) int {
 		g.obs = append(g.obs, o)
 		good := o.Result == "unsat" || o.Result == "holds"
 		if o.Canary {
-			good = o.Result != "unsat"
+			// a canary point may be unreachable on some paths; it must be reachable on one
+			if len(g.obs) == 1 {
+				g.ok = false
+			}
+			if o.Result != "unsat" {
+				g.ok = true
+			}
+			good = true
 		}
 		if !good {
 			g.ok = false
